@@ -28,3 +28,6 @@ M("C08", "unregistered", N, "register_npdu_type(DisconnectConnectionToNetwork)\n
 B("C08", "control-plus", N, "        control = netLayerMessage | dnetPresent | snetPresent", "        control = netLayerMessage + dnetPresent + snetPresent")
 B("C08", "der-respelled", N, "        self.pduExpectingReply = (control & 0x04) != 0", "        self.pduExpectingReply = bool(control & 4)")
 B("C08", "locals-renamed", N, "        self.rmtnRejectionReason = npdu.get()\n        self.rmtnDNET = npdu.get_short()", "        reason = npdu.get()\n        net = npdu.get_short()\n        self.rmtnDNET = net\n        self.rmtnRejectionReason = reason")
+M("C08", "header-copy-after-decode", "npdu.py", "", "", "C08.R1", "PCI.update moved to the end of NPCI.decode: decoded expecting-reply / priority overwritten",
+  edits=[dict(file="npdu.py", old="        PCI.update(self, pdu)\n\n        # check the length", new="        # check the length"),
+         dict(file="npdu.py", old="            # application layer message\n            self.npduNetMessage = None\n", new="            # application layer message\n            self.npduNetMessage = None\n\n        PCI.update(self, pdu)\n")])
